@@ -3,4 +3,4 @@ import Driver.Fam.Numjson
 open Driver
 /-- families of area "numjson" (numeric + JSONB) -/
 def main (args : List String) : IO UInt32 :=
-  run [Fam.numhdr, Fam.numeric, Fam.jsonb, Fam.numericMalformed, Fam.jsonbMalformed, Fam.jsonbAlias, Fam.numericRaw, Fam.jsonbRaw] args
+  run [Fam.numhdr, Fam.numeric, Fam.numround, Fam.jsonb, Fam.numericMalformed, Fam.jsonbMalformed, Fam.jsonbAlias, Fam.numericRaw, Fam.jsonbRaw] args
